@@ -80,6 +80,13 @@ func gradSite(name, format string) c30Site {
 	}}
 }
 
+func carrierSite(name, format string) c30Site {
+	return c30Site{Name: name, Benign: append([]string{""}, c30Benign...), Src: func(_, raw string) string {
+		v := dq(fmt.Sprintf(format, raw))
+		return "a: lbl {style.fill: " + v + "; style.stroke: " + v + "; style.font-color: " + v + "}\na -> b: lbl {style.stroke: " + v + "; style.font-color: " + v + "}\n"
+	}}
+}
+
 var c30Sites = []c30Site{
 	{Name: "shape-label", Src: func(q, _ string) string { return "a: " + q + "\nc: " + q + " {b}\n" }},
 	{Name: "shape-label-border-mono", Src: func(q, _ string) string {
@@ -114,6 +121,18 @@ var c30Sites = []c30Site{
 	}},
 	{Name: "color-value-stroke-font", Src: func(q, _ string) string {
 		return "a -> b: lbl {style.stroke: " + q + "; style.font-color: " + q + "}\n"
+	}},
+	// the string appended to a value that is valid on its own: it reaches the SVG only if the validator of the attribute
+	// accepts a valid prefix (an unanchored pattern, a prefix comparison). With the empty string the value is valid, which
+	// gives the vocabulary of the site.
+	carrierSite("color-value-after-hex6", "#aabbcc%s"),
+	carrierSite("color-value-after-hex3", "#abc%s"),
+	carrierSite("color-value-after-name", "red%s"),
+	carrierSite("color-value-before-name", "%sred"),
+	carrierSite("gradient-after-closing-parenthesis", "linear-gradient(red, blue)%s"),
+	{Name: "theme-override-after-hex6", Benign: append([]string{""}, c30Benign...), Src: func(_, raw string) string {
+		v := dq("#aabbcc" + raw)
+		return "vars: {d2-config: {theme-overrides: {B1: " + v + "; N7: " + v + "}}}\na -> b\n"
 	}},
 	gradSite("gradient-stop-color", "linear-gradient(%s, blue)"),
 	gradSite("gradient-stop-position", "linear-gradient(red %s, blue)"),
